@@ -323,7 +323,7 @@ ChainEntrySeqs ==
 ChainOps == {[ext |-> IF HasIntro(c) THEN "t" ELSE "f", chain |-> c, entries |-> es] :
                 c \in Chains(MaxChain), es \in ChainEntrySeqs}
             \cup (IF Big THEN {[ext |-> IF HasIntro(c) THEN "t" ELSE "f", chain |-> c, entries |-> <<e>>] :
-                                  c \in Chains(3), e \in EntriesAt(1)}
+                                  c \in Chains(2), e \in EntriesAt(1)}
                          ELSE {})
 
 MCOps == {o \in LegacyOps \cup ChainOps : IsOp(o)}
